@@ -74,6 +74,7 @@ class Unit:
         self.rules = {'R1', 'R2', 'R4', 'R5', 'R9', 'R10', 'R11'}
         self.guard_panics = False
         self.substs = []   # (scope, is_regex, frm, to)
+        self.forloops = []  # (scope, expr literal, replacement iterator expr)   rule R7
         self.files = {}
         self.items_cache = {}
         self.verus_args = []
@@ -130,6 +131,11 @@ class Unit:
             t, n = rx.r9_closure_wildcard(text)
             text = t
             out.count('R9', n)
+        for sc, frm, to in self.forloops:
+            if sc != '*' and sc != scope:
+                continue
+            text, n = rx.r7_desugar_for(text, frm, to)
+            out.count('R7', n)
         for sc, is_re, frm, to in self.substs:
             if sc != '*' and sc != scope and not (sc.endswith('*') and scope.startswith(sc[:-1])):
                 continue
@@ -182,6 +188,9 @@ class Unit:
                 self.guard_panics = True
             elif d == 'verus-arg':
                 self.verus_args += parts[1:]
+            elif d == 'forloop':
+                sc, frm, to = [x.strip() for x in arg.split(':::')]
+                self.forloops.append((sc, frm, to))
             elif d in ('subst', 'resubst'):
                 sc, frm, to = [x.strip() for x in arg.split(':::')]
                 frm = frm.replace('\\n', '\n') if d == 'subst' else frm
@@ -190,6 +199,17 @@ class Unit:
                 p = os.path.join(ROOT, 'prelude', arg)
                 for k, ln in enumerate(open(p).read().rstrip('\n').split('\n')):
                     out.emit(ln, {'kind': 'prelude', 'file': arg, 'line': k + 1})
+            elif d == 'gen':
+                if parts[1] == 'errors':
+                    import gen_errors
+                    try:
+                        txt = gen_errors.generate(self.src('src/errors.rs'))
+                    except Exception as e:
+                        raise Undecided('cannot mirror src/errors.rs: %s' % e)
+                    for k, ln in enumerate(txt.split('\n')):
+                        out.emit(ln, {'kind': 'generated', 'file': 'src/errors.rs', 'line': k + 1})
+                else:
+                    raise Undecided('template error: unknown generator %s' % parts[1])
             elif d == 'item':
                 rel, kind, name = parts[1], parts[2], parts[3]
                 self.emit_item(out, rel, kind, name, parts[4:])
@@ -261,8 +281,9 @@ class Unit:
                         if x.kind == 'fn' and x.name not in impl_ctx['emitted'] and x.name not in pending_skip \
                                 and not any('cfg(test)' in a for a in x.attrs):
                             impl_ctx['emitted'].add(x.name)
-                            self.emit_fn(out, impl_ctx['file'], x, contract, opts, canary,
-                                         owner=impl_ctx['type'], trait_impl=impl_ctx['trait_impl'], default=True)
+                            mut_self = re.search(r'&\s*(\'\w+\s+)?mut\s+self\b', x.header()) is not None
+                            self.emit_fn(out, impl_ctx['file'], x, contract if mut_self else [], opts, canary,
+                                         owner=impl_ctx['type'], trait_impl=impl_ctx['trait_impl'], default=mut_self)
                 i = j
             else:
                 raise Undecided('template error: unknown directive %s at line %d' % (d, i + 1))
@@ -608,6 +629,9 @@ def analyse(out, res, unit):
             f = fn_at(out, s['line_start'])
             if f:
                 break
+        if kind == 'other':
+            hard.append(msg)
+            continue
         if kind == 'rlimit':
             undecided.append('%s: %s' % (f['id'] if f else '?', msg))
             continue
@@ -618,7 +642,14 @@ def analyse(out, res, unit):
         for s in spans:
             o = out.origin[s['line_start'] - 1] if s['line_start'] - 1 < len(out.origin) else {}
             if o.get('kind') in ('contract', 'canary') and label is None:
-                lb = label_of(out, s['line_start'])
+                lb = None
+                for ln in range(s.get('line_end', s['line_start']), s['line_start'] - 1, -1):
+                    m = LABEL_RE.search(out.lines[ln - 1]) if ln - 1 < len(out.lines) else None
+                    if m:
+                        lb = m.group(1).strip()
+                        break
+                if lb is None:
+                    lb = label_of(out, s['line_start'])
                 if lb:
                     label = lb
             if o.get('kind') == 'src' and site is None:
